@@ -283,24 +283,33 @@ func (f *file) ReadBlobAt(length int, off int64) (b blob.Blob, n int, err error)
 	if off >= int64(f.Size()) {
 		return nil, 0, io.EOF
 	}
-	max := int64(f.Size())
-	end := off + int64(length)
-	if end > max {
-		end = max
-	}
 	data, err := f.Data()
 	if err != nil {
 		return nil, 0, err
 	}
-	b, err = blob.View(data, off, end)
-	if err != nil {
-		return nil, 0, err
+	for attempt := 0; ; attempt++ {
+		max := int64(data.Len())
+		if off >= max {
+			return nil, 0, io.EOF
+		}
+		end := off + int64(length)
+		if end > max {
+			end = max
+		}
+		b, err = blob.View(data, off, end)
+		if err != nil {
+			if int64(data.Len()) < end && attempt < 8 {
+				// truncated through another handle since the length was read: read what is left
+				continue
+			}
+			return nil, 0, err
+		}
+		n = b.Len()
+		if off+int64(n) == max {
+			return b, n, io.EOF
+		}
+		return b, n, nil
 	}
-	n = b.Len()
-	if off+int64(n) == max {
-		return b, n, io.EOF
-	}
-	return b, n, nil
 }
 
 func (f *file) Seek(offset int64, whence int) (int64, error) {
